@@ -1,14 +1,25 @@
 """C27 — node errors map to the most specific registered error class.
 
-Exploration: every identifier of the forms <name>, <cat>.<name>, <a>.<b>.<c>, proto.<P>.<name>,
-proto.<P>.<cat>.<name>, proto.<P>.<a>.<b>.<name> over a component alphabet made of every component of
-every key in the LIVE registry (RpcError.__handlers__), two synthetic components and two unregistered
-ones; x every registry configuration (each subset of four synthetic classes registered for a full
-identifier / a de-prefixed identifier / a final component / a category, and - thorough - each subset of
-the shipped keys switched off) x every error list of length 1..3 whose last element is the identifier
-under test (preceding elements: decoys that map to other classes) and the empty list.
-The real RpcError.from_errors is called; the oracle is the statement's lookup order (mc/ref/errclass.py)
-applied to the same live registry.  The registry is snapshotted and restored around every shard.
+Exploration, three parts, all against the LIVE registry (RpcError.__handlers__) under every registry configuration
+(each subset of four synthetic classes registered for a full identifier / a de-prefixed identifier / a final
+component / a category, and - thorough - each subset of the shipped keys switched off):
+
+1. identifiers: every identifier of the forms <name>, <cat>.<name>, <a>.<b>.<c>, proto.<P>.<name>,
+   proto.<P>.<cat>.<name>, proto.<P>.<a>.<b>.<name> over a component alphabet made of every component of every key
+   in the live registry, two synthetic components and two unregistered ones; x every error list of length 1..3 whose
+   last element is the identifier under test (preceding elements: decoys that map to other classes) and the empty list.
+2. depth: identifiers with MORE components - a path of 2..4 (thorough 2..5) filler components in front of every
+   <cat>.<name> tail, bare (4..6, thorough ..7 components) and behind proto.<P>. (6..7, thorough ..8 components); the
+   fillers are an unregistered name, a registered category, a registered final component and a shipped key, so a
+   lookup that looks at a fixed position instead of the last / last-but-one component picks a different class.
+3. delivery: the same error lists delivered the way a node delivers them - as the JSON body of a failed HTTP answer
+   (RpcError.from_response, and the real RpcNode.request behind a fake transport) and as the receipt of a rejected
+   operation group (OperationResult.from_operation_group): every layout of 1..3 contents with 0..2 internal operations
+   (3 result slots, thorough 4), every status per slot, every choice of attached error trace per non-applied slot.
+
+The oracle is the statement's lookup order (mc/ref/errclass.py) applied to the same live registry.  The registry is
+snapshotted and restored around every shard; within a shard all calls share the process, so a lookup that leaves
+something behind for a later one is judged by the later one.
 """
 from __future__ import annotations
 
@@ -19,31 +30,56 @@ from mc.ref import errclass
 
 ID = 'C27'
 LEVEL = 'exploration'
-RULE = ('every identifier of 6 forms over the component alphabet x every registry configuration x every decoy prefix '
-        '(error lists of length 0..3); non-trivial = distinct (registry, identifier) where at least two candidate keys '
-        'of the identifier are registered to different classes, i.e. the lookup order decides the class')
+RULE = ('(1) every identifier of 6 forms over the component alphabet, (2) every filler path x every <cat>.<name> tail, bare '
+        'and proto-prefixed, x every registry configuration x decoy prefixes (error lists of length 0..3); (3) every shallow '
+        'identifier through from_response and RpcNode.request, and every operation-group receipt (layout x status x error '
+        'trace per result) through from_operation_group.  Non-trivial = distinct (registry, identifier) where at least two '
+        'candidate keys of the identifier are registered to different classes, i.e. the lookup order decides the class; '
+        'for receipts: distinct (registry, receipt) where two results carry traces whose last errors map to different '
+        'classes, i.e. which result ends the list decides the class')
 BOUND = {
-    'quick': '2 protocols, 9 components (5 shipped + 2 synthetic + 2 unregistered), 6 identifier forms (2457 ids), '
-             '16 synthetic-registry subsets x {shipped registry on, off}, 13 decoy prefixes (lists of length 1..3) + empty list',
-    'thorough': '3 protocols, same components and forms (3276 ids), 16 synthetic-registry subsets x all 32 subsets of the '
-                'shipped keys, 13 decoy prefixes + empty list',
+    'quick': '2 protocols, 9 components (5 shipped + 2 synthetic + 2 unregistered), 6 identifier forms (2457 ids) x 13 decoy '
+             'prefixes + empty list; depth: filler paths of length 2..4 (bare) / 2..3 (proto-prefixed) over 4 fillers x 81 tails '
+             '(40176 ids of 4..7 components) x 2 prefixes; 16 synthetic-registry subsets x {shipped registry on, off}; '
+             'delivery: 270 shallow ids x 2 prefixes through from_response and RpcNode.request per registry; receipts with '
+             '<=3 result slots (7 layouts, 31 options per slot: applied | {failed, backtracked, skipped} x 10 traces) x 2 registries',
+    'thorough': '3 protocols, same components and forms (3276 ids) x 13 decoy prefixes + empty list; depth: paths 2..4 / 2..3 '
+                'in every registry, 2..5 / 2..4 (up to 8 components) and a decoy prefix where all or none of the shipped keys are on; 16 '
+                'synthetic-registry subsets x all 32 subsets of the shipped keys; delivery as quick per registry; receipts '
+                'with <=4 result slots (13 layouts) x 2 registries',
 }
 ASSUMPTIONS = [
-    'the class of the raised error is type(RpcError.from_errors(errors)); from_response/request only forward to it',
+    'the class of the raised error is type(RpcError.from_errors(errors)); from_response, RpcNode.request and '
+    'OperationResult.from_operation_group are driven as well; OperationGroup.autofill / inject build their exception with '
+    'the same RpcError.from_errors(OperationResult.errors(group)) composition as from_operation_group (read, not driven)',
     '"category" is unambiguous only when the de-prefixed identifier has exactly two components; for longer identifiers '
     'the first component, the one before the name and the dotted path before the name are all admissible readings and '
-    'a case is judged only when all readings agree (otherwise counted as no verdict)',
+    'a case is judged only when all readings demand the same class (otherwise counted as no verdict)',
     'the protocol prefix is proto.<P>. (identifier starts with the component "proto" and has at least three components)',
+    'the list of node errors of a rejected operation group is the concatenation, in receipt order (result of a content, then '
+    'the results of its internal operations), of the error traces attached to its non-applied results; whether a trace on a '
+    '"skipped" result (whose encoding has no error field) counts is left open: both readings must demand the same class',
 ]
 LEVEL_TEXT = ('exhaustive over a small identifier/registry universe built from the live registry; the order of the four '
               'lookups is exercised independently of which classes the library ships because synthetic classes are '
-              'registered for each lookup kind in every combination')
+              'registered for each lookup kind in every combination; depth and the delivery paths (HTTP answer, operation '
+              'receipt) are enumerated with the same oracle')
 
 SYNTH_KEYS = {'full': 'proto.alpha.zcat.zname', 'deprefixed': 'zcat.zname', 'final': 'zname', 'category': 'zcat'}
 UNREG = ['ua', 'ub']
 DECOYS = ['proto.alpha.tez.subtraction_underflow', 'proto.alpha.michelson_v1.bad_return', 'ua.ub']
 NICE = {'full': 'full identifier', 'deprefixed': 'identifier without protocol prefix', 'final': 'final component',
         'category': 'category', 'generic': 'generic RpcError'}
+L_ERRORS, L_RESPONSE, L_REQUEST, L_GROUP = 'from_errors', 'from_response', 'RpcNode.request', 'operation group'
+SHALLOW = ('name', 'cat.name', 'proto.P.name', 'proto.P.cat.name')
+
+# receipts
+STATUSES = ['applied', 'failed', 'backtracked', 'skipped']
+_X, _Y, _U, _Z = ('proto.alpha.michelson_v1.script_rejected', 'proto.alpha.tez.subtraction_underflow', 'proto.alpha.ua.ub',
+                  'proto.alpha.zcat.zname')
+TRACES = [None, [], [_X], [_Y], [_U], [_Z], [_X, _Y], [_Y, _X], [_U, _X], [_X, _U]]
+GROUP_REGISTRIES = [([], []), (list(SYNTH_KEYS), [])]
+TZ, KT = 'tz1VSUr8wwNhLAzempoch5d6hLRiTh8Cjcjb', 'KT1BEqzn5Wx8uJrZNvuS9DVHmLvG9td3fDLi'
 
 _cache = {}
 
@@ -79,6 +115,13 @@ def components():
     return comps + ['zcat', 'zname'] + UNREG
 
 
+def fillers():
+    """Components put in front of a <cat>.<name> tail: unregistered, registered category, registered final, a shipped key."""
+    _, snap, _ = _env()
+    single = sorted((k for k in snap if '.' not in k), key=lambda k: (len(k), k))
+    return [UNREG[0], 'zcat', 'zname'] + single[:1]
+
+
 def identifiers(tier):
     """Simplest first."""
     cs = components()
@@ -98,6 +141,24 @@ def identifiers(tier):
     for p in ps:
         for a, b, c in itertools.product(cs, repeat=3):
             yield 'proto.P.a.b.name', f'proto.{p}.{a}.{b}.{c}'
+
+
+def deep_identifiers(tier, extra):
+    """Identifiers with more components than the forms above, shortest first."""
+    cs = components()
+    fs = fillers()
+    tails = [f'{a}.{b}' for a, b in itertools.product(cs, repeat=2)]
+    for n in (2, 3, 4, 5) if extra else (2, 3, 4):
+        for path in itertools.product(fs, repeat=n):
+            head = '.'.join(path)
+            for t in tails:
+                yield f'{n + 2} components', f'{head}.{t}'
+    for n in (2, 3, 4) if extra else (2, 3):
+        for p in protocols(tier):
+            for path in itertools.product(fs, repeat=n):
+                head = f'proto.{p}.' + '.'.join(path)
+                for t in tails:
+                    yield f'proto.P + {n + 2} components', f'{head}.{t}'
 
 
 def prefixes():
@@ -133,51 +194,150 @@ class installed:
         self.h.update(self.saved)
 
 
-def call(ids):
-    """Real code.  -> ('ok', class) | ('raised', text)"""
+# --- the real code, one function per delivery path ---------------------------------------------------------------------
+def call(ids, layer=L_ERRORS):
+    """Real code.  -> ('ok', class) | ('raised', text) | ('noraise', text)"""
     RpcError, _, _ = _env()
+    if layer == L_REQUEST:
+        return call_request(ids)
     errors = [{'kind': 'temporary', 'id': i} for i in ids]
     try:
-        e = RpcError.from_errors(errors)
+        if layer == L_RESPONSE:
+            from mc.fakes import FakeResponse
+            e = RpcError.from_response(FakeResponse(500, errors))
+        else:
+            e = RpcError.from_errors(errors)
     except Exception as ex:  # the statement allows no exception here
         return 'raised', f'{type(ex).__name__}: {ex}'
     return 'ok', type(e)
 
 
-def judge(ids, reg):
-    """-> (label, verdict) with verdict None (holds), 'NV' (no verdict) or (descriptor, detail).  Registry must be installed."""
+def call_request(ids):
+    """The error list as the body of a failed answer to a real RpcNode.request (fake transport, permanent errors: no retry)."""
+    from mc.fakes import FakeResponse, patched_http
+    from pytezos.rpc.node import RpcError, RpcNode
+    errors = [{'kind': 'permanent', 'id': i} for i in ids]
+    node = RpcNode('http://n.invalid')
+    with patched_http(lambda **kw: FakeResponse(500, errors), lambda s: None):
+        try:
+            node.request('GET', 'chains/main/blocks/head')
+        except RpcError as e:
+            return 'ok', type(e)
+        except Exception as ex:
+            return 'raised', f'{type(ex).__name__}: {ex}'
+    return 'noraise', 'a 500 answer did not raise'
+
+
+def build_group(layout, slots):
+    """layout: internal-operation count per content; slots: (status, trace | None) per result in receipt order."""
+    it = iter(slots)
+
+    def result():
+        status, ids = next(it)
+        res = {'status': status}
+        if ids is not None:
+            res['errors'] = [{'kind': 'temporary', 'id': i} for i in ids]
+        return res
+
+    contents = []
+    for ci, n_int in enumerate(layout):
+        meta = {'operation_result': result()}
+        if n_int:
+            meta['internal_operation_results'] = [
+                {'kind': 'transaction', 'source': KT, 'destination': TZ, 'amount': '0', 'nonce': k, 'result': result()}
+                for k in range(n_int)]
+        contents.append({'kind': 'transaction', 'source': TZ, 'destination': KT, 'amount': '0', 'counter': str(ci + 1),
+                         'fee': '0', 'gas_limit': '0', 'storage_limit': '0', 'metadata': meta})
+    return {'branch': 'BKiHLREqU3JkXfzEDYAkmmfX48gBDtYhMrpA98s7Aq4SzbUAB6M', 'contents': contents}
+
+
+def call_group(layout, slots):
+    from pytezos.operation.result import OperationResult
     RpcError, _, _ = _env()
-    st, got = call(ids)
+    try:
+        OperationResult.from_operation_group(build_group(layout, slots))
+    except RpcError as e:
+        return 'ok', type(e)
+    except Exception as ex:
+        return 'raised', f'{type(ex).__name__}: {ex}'
+    return 'noraise', 'the group was not rejected'
+
+
+# --- oracle -------------------------------------------------------------------------------------------------------
+def classify(layer, st, got, exp, last_id, reg, what):
+    """exp: set of admissible (kind, value).  -> (label, verdict); verdict None (holds) | 'NV' | (descriptor, detail)."""
+    RpcError, _, _ = _env()
+    tag = '' if layer == L_ERRORS else f'[{layer}] '
+    if st == 'noraise':
+        return 'no exception (no verdict)', 'NV'       # nothing is raised: the statement says nothing
     if st == 'raised':
-        return 'raised', ('from_errors raises instead of returning an error', f'errors={ids}: {got}')
+        d = 'from_errors raises instead of returning an error' if layer == L_ERRORS else \
+            tag + 'raises something that is not an RpcError'
+        return 'raised', (d, f'{what}: {got}')
     if not isinstance(got, type) or not issubclass(got, RpcError):
-        return 'not-an-rpc-error', ('from_errors returns something that is not an RpcError', f'errors={ids}: {got!r}')
-    exp = errclass.expected(ids, reg)
-    if not ids:
+        return 'not-an-rpc-error', (tag + 'from_errors returns something that is not an RpcError', f'{what}: {got!r}')
+    if last_id is None:
         if got is RpcError:
             return 'empty list -> generic', None
-        return 'empty list -> specific', ('empty error list not mapped to the generic RpcError', f'got {got.__name__}')
-    if len(exp) > 1:
-        return 'category ambiguous (no verdict)', 'NV'
-    (kind, val), = exp
-    want = RpcError if kind == errclass.GENERIC else val
+        return 'empty list -> specific', (tag + 'empty error list not mapped to the generic RpcError', f'{what}: got {got.__name__}')
+    wants = {RpcError if kind == errclass.GENERIC else val for kind, val in exp}
+    if len(wants) > 1:
+        return 'readings disagree (no verdict)', 'NV'
+    want, = wants
+    kind = min((k for k, _ in exp), key=lambda k: (errclass.KINDS + (errclass.GENERIC,)).index(k))
     if got is want:
         return f'matched on {NICE[kind]}', None
     # classify what the implementation matched on instead
     got_kind = 'generic' if got is RpcError else 'unrelated'
     if got is not RpcError:
-        rs = errclass.readings(ids[-1])
+        rs = errclass.readings(last_id)
         for k in errclass.KINDS:
             if any(kk == k and reg.get(key) is got for keys in rs for kk, key in keys):
                 got_kind = k
                 break
-    got_txt = NICE.get(got_kind, 'an unrelated identifier (not the last error?)')
-    d = f'expected the class registered for the {NICE[kind]}, got the class registered for the {got_txt}' \
-        if got_kind != 'generic' else f'expected the class registered for the {NICE[kind]}, got the generic RpcError'
-    return f'WRONG {NICE[kind]} -> {got_txt}', (d, f'errors={ids} registry keys={sorted(reg)} expected {want.__name__} '
-                                                     f'(key kind: {kind}), got {got.__name__}')
+    exp_txt = 'the generic RpcError' if kind == errclass.GENERIC else f'the class registered for the {NICE[kind]}'
+    if got_kind == 'generic':
+        got_txt = 'the generic RpcError'
+    elif got_kind == 'unrelated':
+        got_txt = 'a class registered for none of the keys of the last error'
+    else:
+        got_txt = f'the class registered for the {NICE[got_kind]}'
+    return f'WRONG {NICE[kind]} -> {got_txt}', (f'{tag}expected {exp_txt}, got {got_txt}',
+                                                f'{what} registry keys={sorted(reg)} expected {want.__name__} '
+                                                f'(key kind: {kind}), got {got.__name__}')
 
 
+def judge(ids, reg, layer=L_ERRORS, exp=None):
+    """Registry must be installed."""
+    st, got = call(ids, layer)
+    if exp is None:
+        exp = errclass.expected(ids, reg)
+    return classify(layer, st, got, exp, ids[-1] if ids else None, reg, f'errors={ids}')
+
+
+def judge_group(layout, slots, reg):
+    st, got = call_group(layout, slots)
+    lists = errclass.group_error_lists(slots)
+    exp = errclass.expected_group(slots, reg)
+    last = next((l[-1] for l in lists if l), None)
+    return classify(L_GROUP, st, got, exp, last, reg, f'layout={list(layout)} results={slots}')
+
+
+def slot_options():
+    return [('applied', None)] + [(s, t) for s in STATUSES[1:] for t in TRACES]
+
+
+def layouts(tier):
+    cap = 3 if tier == 'quick' else 4
+    out = []
+    for n in (1, 2, 3):
+        for lay in itertools.product(range(3), repeat=n):
+            if n + sum(lay) <= cap:
+                out.append(lay)
+    return sorted(out, key=lambda lay: (len(lay) + sum(lay), len(lay), lay))
+
+
+# --- exploration --------------------------------------------------------------------------------------------------
 def shards(tier, seed):
     _, snap, _ = _env()
     kinds = list(SYNTH_KEYS)
@@ -187,52 +347,134 @@ def shards(tier, seed):
         offs = [[], shipped]
     else:
         offs = [[k for i, k in enumerate(shipped) if m >> i & 1] for m in range(2 ** len(shipped))]
-    return [(s, o) for o in offs for s in synth_sets]
+    out = [('ids', s, o) for o in offs for s in synth_sets]
+    n_opt = len(slot_options())
+    out += [('group', s, o, list(lay), first) for s, o in GROUP_REGISTRIES for lay in layouts(tier) for first in range(n_opt)]
+    return out
 
 
 def run_shard(spec, tier):
+    if spec[0] == 'group':
+        return run_group_shard(spec, tier)
+    if spec[0] == 'ids':
+        spec = spec[1:]
     synth_on, shipped_off = spec
+    _, snap, _ = _env()
     r = Result()
     reg = registry_for(synth_on, shipped_off)
     pres = prefixes()
     case = None
-    with installed(reg):
-        case = {'synth': synth_on, 'shipped_off': shipped_off, 'errors': []}
+    base = {'synth': synth_on, 'shipped_off': shipped_off}
+
+    def record(form, layer, ids, exp):
         r.ev()
-        label, v = judge([], reg)
-        r.out(label)
-        if isinstance(v, tuple):
-            r.viol(v[0], case, v[1])
+        label, v = judge(ids, reg, layer, exp)
+        r.out(f'{form}: {label}' if layer == L_ERRORS else f'{layer}: {label}')
+        if v == 'NV':
+            r.no_verdict += 1
+        elif v is not None:
+            c = dict(base, errors=ids)
+            if layer != L_ERRORS:
+                c['layer'] = layer
+            r.viol(v[0], c, v[1])
+
+    with installed(reg):
+        case = dict(base, errors=[])
+        for layer in (L_ERRORS, L_RESPONSE, L_REQUEST):
+            record('empty', layer, [], None)
         r.sample(case)
         for form, eid in identifiers(tier):
             sens = errclass.order_sensitive(eid, reg)
             if sens:
                 r.nt((tuple(synth_on), tuple(shipped_off), eid))
+            exp = errclass.expected([eid], reg)
             for pre in pres:
-                ids = pre + [eid]
-                case = {'synth': synth_on, 'shipped_off': shipped_off, 'errors': ids}
-                r.ev()
-                label, v = judge(ids, reg)
-                r.out(f'{form}: {label}')
-                if v == 'NV':
-                    r.no_verdict += 1
-                elif v is not None:
-                    r.viol(v[0], case, v[1])
+                record(form, L_ERRORS, pre + [eid], exp)
+            case = dict(base, errors=pres[-1] + [eid])
+            if form in SHALLOW:
+                for layer in (L_RESPONSE, L_REQUEST):
+                    for pre in (pres[0], [DECOYS[1]]):
+                        record(form, layer, pre + [eid], exp)
             if sens and len(r.samples) < 2 and form == 'proto.P.cat.name':
                 r.sample(case)
+        edge = len(shipped_off) in (0, len(snap))     # all or none of the shipped keys on
+        extra = tier != 'quick' and edge
+        deep_pres = (pres[0], [DECOYS[0]]) if edge else (pres[0],)
+        deep_sampled = False
+        for form, eid in deep_identifiers(tier, extra):
+            sens = errclass.order_sensitive(eid, reg)
+            if sens:
+                r.nt((tuple(synth_on), tuple(shipped_off), eid))
+            exp = errclass.expected([eid], reg)
+            for pre in deep_pres:
+                record(form, L_ERRORS, pre + [eid], exp)
+            case = dict(base, errors=deep_pres[-1] + [eid])
+            if sens and not deep_sampled and form.startswith('proto'):
+                r.sample(case)
+                deep_sampled = True
     r.sample(case)
     return r
 
 
-def replay(case):
-    reg = registry_for(case.get('synth', []), case.get('shipped_off', []))
+def run_group_shard(spec, tier):
+    _, synth_on, shipped_off, layout, first = spec
+    RpcError, _, _ = _env()
+    r = Result()
+    reg = registry_for(synth_on, shipped_off)
+    opts = slot_options()
+    n_slots = len(layout) + sum(layout)
+    case = None
+    own = {}                                         # last identifier of a trace -> classes the readings admit for it
+
+    def classes_of(eid):
+        if eid not in own:
+            own[eid] = frozenset(RpcError if k == errclass.GENERIC else v for k, v in errclass.expected([eid], reg))
+        return own[eid]
+
     with installed(reg):
-        _, v = judge(list(case['errors']), reg)
+        for rest in itertools.product(opts, repeat=n_slots - 1):
+            slots = [list(opts[first])] + [list(o) for o in rest]
+            if all(s == 'applied' for s, _ in slots):
+                continue                              # nothing is rejected: outside the statement
+            case = {'synth': synth_on, 'shipped_off': shipped_off, 'layer': L_GROUP, 'layout': layout, 'slots': slots}
+            r.ev()
+            ends = {classes_of(t[-1]) for s, t in slots if s != 'applied' and t}
+            if len(ends) >= 2:
+                r.nt((tuple(synth_on), tuple(shipped_off), tuple(layout), repr(slots)))
+            label, v = judge_group(layout, slots, reg)
+            carriers = sorted({s for s, t in slots if t})
+            r.out(f'{L_GROUP} ({n_slots} results, traces on {"+".join(carriers) or "none"}): {label}')
+            if v == 'NV':
+                r.no_verdict += 1
+            elif v is not None:
+                r.viol(v[0], case, v[1])
+            if r.first_case is None:
+                r.sample(case)
+    if case is not None:
+        r.sample(case)
+    return r
+
+
+def _case_parts(case):
+    reg = registry_for(case.get('synth', []), case.get('shipped_off', []))
+    return reg, case.get('layer', L_ERRORS)
+
+
+def replay(case):
+    reg, layer = _case_parts(case)
+    with installed(reg):
+        if layer == L_GROUP:
+            _, v = judge_group(list(case['layout']), [list(s) for s in case['slots']], reg)
+        else:
+            _, v = judge(list(case['errors']), reg, layer)
     return [v] if isinstance(v, tuple) else []
 
 
 def observe(case):
-    reg = registry_for(case.get('synth', []), case.get('shipped_off', []))
+    reg, layer = _case_parts(case)
     with installed(reg):
-        st, got = call(list(case['errors']))
+        if layer == L_GROUP:
+            st, got = call_group(list(case['layout']), [list(s) for s in case['slots']])
+        else:
+            st, got = call(list(case['errors']), layer)
     return [st, got.__name__ if isinstance(got, type) else got]
